@@ -68,6 +68,8 @@ ASSUMPTIONS = [
 TB = [0.0, 2.0 ** -7, 0.5, 4.0, 1e9]
 FB = [0.0, 1.0, 125.0, 1e4, 1e7]
 NEG = [-1.0, -(2.0 ** -20)]
+REGULAR_TB = (2.0 ** -7, 4.0)  # buffer vectors whose results are fed to a further buffering (chains)
+REGULAR_FB = (1.0, 1e4)
 DEPTH = {"quick": 2, "thorough": 3}
 TOL = 1e-9
 LARGE = 1e5  # a coordinate x counts as "large" on a zero-buffer axis when x >= 1e5: x * 1e9 >= 1e14, where a double resolves no better than 1/64 of the unit buffer
@@ -381,7 +383,7 @@ def eval_state(root, chain, g):
     case = {"geom": root, "chain": [list(b) for b in chain]}
     out = Out(case, key=[gtype, c, list(last)])
     gid = geom_id(root, depth)
-    base_cls = {"fn": "buffer_geometry", "geom": gid}
+    base_cls = {"fn": "buffer_geometry", "geom": gid, "root": root, "depth": depth}
     ext = gm.extent(gtype, c)
     time_only = gtype in TIME_ONLY
     shp0 = None if time_only else to_shape(gtype, c)
@@ -550,6 +552,12 @@ def run_block(block, rec):
             rec.count("leaf_results", len(succ))
             continue
         for b, r in succ:
+            if not (REGULAR_TB[0] <= b[0] <= REGULAR_TB[1] and REGULAR_FB[0] <= b[1] <= REGULAR_FB[1]):
+                # chains continue only through non-degenerate results: a zero buffer leaves a sliver thinner than
+                # double precision resolves and the 'larger than the domain' buffers (1e9 s, 1e7 Hz) fill the domain;
+                # those results are still judged as results, but are not fed to a further buffering
+                rec.count("not_chained_degenerate")
+                continue
             k = canon(r, b)
             if k in seen:
                 rec.count("merged")
